@@ -122,6 +122,8 @@ class Slice:
                 got = per.setdefault(ARG_NUM[base], [])
                 if got and (base in ARG_PART) != (got[0] in ARG_PART):
                     raise MachineryError(f"slice {name}: argument {ARG_NUM[base]} with and without parts")
+                if got and base not in ARG_PART and got[0] != base:
+                    raise MachineryError(f"slice {name}: two different Arguments {got[0]}, {base} with number {ARG_NUM[base]} (a form has one)")
                 if not got or (base in ARG_PART and base not in got):
                     got.append(base)
         self.nargs = max([NARGS] + [k + 1 for k in per])
@@ -189,8 +191,8 @@ def slices(tier):
             S("parts3-r", ["v0", "v1", "u0", "u1", "c"], {"list", "dot", "mul"}, 3, False, group="x", canon=True),
             S("parts3-c", ["v0", "v1", "u0", "u1"], {"list", "inner", "conj", "mul"}, 3, True, group="x", canon=True),
             S("condparts-r", ["v0", "v1", "f", "z"], {"lt", "cond", "mul"}, 3, False, group="x", canon=True),
-            S("deep3-c", ["v", "u", "w", "gw", "ww", "f", "c", "two", "imag", "z"], (DEEP | {"conj", "real"}) - {"restrict", "pow"}, 6, True, idx=(10, 11), maxrank=2, simulate=150, group="x", canon=True),
-            S("deepparts-r", ["v0", "v1", "u0", "u1", "f", "c", "one", "two", "z", "zz"], DEEP, 6, False, idx=(10, 11), maxrank=2, simulate=200, group="x", canon=True),
+            S("deep3-c", ["v", "u", "w", "gw", "f", "c", "two", "imag", "z"], (DEEP | {"conj", "real"}) - {"restrict", "pow"}, 6, True, idx=(10, 11), maxrank=2, simulate=100, group="x", canon=True),
+            S("deepparts-r", ["v0", "v1", "u0", "u1", "f", "c", "one", "two", "z", "zz"], DEEP, 6, False, idx=(10, 11), maxrank=2, simulate=120, group="x", canon=True),
         ]
     return out
 
